@@ -262,4 +262,26 @@ func init() {
 			"observation (not a listed finding): minifyDimension returns the unit as a slice of the input that the final append may overwrite when the number shrinks by fewer bytes than the unit is long (e.g. the unit of -0km reads back as mm); the only caller uses it for the optional-zero-unit lookup, where this can only drop the unit of a zero with an invalid two-letter unit ending in m",
 		},
 	})
+	registerProp(&PropSpec{
+		ID:       "C05",
+		Patterns: []string{"./svg"},
+		Units: []string{
+			modPath + "/svg.(*TokenBuffer).read", modPath + "/svg.NewTokenBuffer", modPath + "/svg.(*TokenBuffer).Peek", modPath + "/svg.(*TokenBuffer).Shift",
+			modPath + "/svg.(*PathDataState).copyNumber", modPath + "/svg.(*PathDataState).copyFlag",
+		},
+		Custom: []string{"partial"},
+		Partial: []string{
+			modPath + "/svg.(*PathData).copyInstruction", modPath + "/svg.(*PathData).shortenCurPosInstruction",
+			modPath + "/svg.(*PathData).shortenAltPosInstruction", modPath + "/svg.(*Minifier).Minify",
+		},
+		Notes: []string{
+			"separator elision under full contract (copyNumber / copyFlag, all inputs): the buffer only grows; a number is written without a separator only when re-lexing cannot fuse it with what precedes (previous token is a command or flag, or the number starts with '-', or it starts with '.' and the previous number already has a '.' or an exponent); a lone 0 after a fraction becomes .0; the trailing 00 -> e2 rewrite happens only for integers (F15 found and fixed: 1e100 became 1e1e2); prevDigitIsInt is exactly 'the written number has no dot or exponent'; flags are one character, preceded by a separator unless a flag precedes",
+			"path cursor state machine (site assertions in the real copyInstruction, partial contract): when the command about to be written is not a cubic (quadratic) curve, the remembered control point p.cx/p.cy (p.qx/p.qy) is NaN, so a following smooth command reflects only an EMITTED curve of its family; rewrites never change a command's relativity; the state taken over is that of the chosen alternative; after closepath the state demands a command letter (F16 found and fixed: M2 2h3zh4 became M2 2h3z 4); in shortenCur/AltPosInstruction the command letter is elided only after the same letter or as implicit lineto after moveto, never after closepath",
+			"floats are an uninterpreted sort with NaN-ness as the only interpreted fact (math.NaN/IsNaN): coordinate arithmetic, the absolute/relative alternative's VALUE, tolerance and degenerate-curve tests are NOT decided",
+			"svg.TokenBuffer under full contract (same data-structure contract as xml: Peek consumes nothing, Shift hands out the first token of the view)",
+			"svg.(*Minifier).Minify (partial): the option struct is never written (frame.store); an attribute is dropped for its namespace prefix only if the prefix is not xml:, not xlink: and it is not the xmlns:xlink declaration (F17 found and fixed: xlink:href was dropped); embedded style dispatch obligations of C11; end-of-input obligations of C14",
+			"not decided: element tree preservation as a whole, skipTag/printTag, shortenDimension, viewBox, colour and style values, default-attribute removal on the root, geometry equality of paths (needs a float semantics and an induction over the whole path), number values (C08)",
+			"A-call: copyNumber's premises (coord is a minified number, coord does not alias the buffer) are established by its callers from Number's output; those call-site obligations are generated but not discharged (interior pointers &p.curBuffer are outside the memory model) and are not claimed",
+		},
+	})
 }
